@@ -1062,7 +1062,13 @@ class RZILTransformer(Transformer):
 
     def block_item(self, items):
         self.ext.set_token_meta_data("block_item")
-        return items[0]
+        item = items[0]
+        pending = self.il_ops_holder.hybrid_effect_dict
+        if isinstance(item, LocalVar) and item.get_name() in pending:
+            # The statement is only a hybrid (i++; or f(x);). Its effect is this statement.
+            # Otherwise it is executed wherever the next effect, which happens to collect it, is.
+            return pending.pop(item.get_name())
+        return item
 
     def chk_hybrid_dep(
         self, effect: Effect, order: HybridSeqOrder = HybridSeqOrder.HYB_THEN_SEQ
